@@ -22,6 +22,8 @@ pub fn defs() -> Vec<ScenDef> {
         d("bar", bar, false),
         d("rw", rw, false),
         d("rwc", rwc, true),
+        d("rwcr", rwcr, true),
+        d("relock", relock, true),
         d("rwseq", rwseq, false),
         d("hsmutex", hsmutex, false),
         d("hssem", hssem, false),
@@ -427,11 +429,18 @@ fn cv_impl(x: &mut Exec, with_cancel: bool) -> Res {
     let errs = Arc::new(std::sync::Mutex::new(Vec::<String>::new()));
     let consumers = x.rng.range(2, if x.thorough { 5 } else { 3 }) as usize;
     let use_all = x.rng.chance(1, 4); // producers use notify_all instead of notify_one
+    // give-up mode: a timed consumer that times out (and the cancel target) *leaves* without taking a token, and there
+    // are exactly as many tokens as patient consumers. A notify_one that lands on a waiter which is just giving up
+    // must be passed on: otherwise a patient consumer sleeps on although a token is there.
+    let giveup = x.rng.chance(1, 2);
     let mut target = None;
     let mut modes = vec![];
+    let patient_left = Arc::new(AtomicUsize::new(0));
+    let impatient_left = Arc::new(AtomicUsize::new(0));
+    let mut npatient = 0usize;
     for i in 0..consumers {
         let (pair, occ, errs) = (pair.clone(), occ.clone(), errs.clone());
-        let timed = x.rng.chance(1, 2);
+        let timed = if giveup && i == 0 { false } else { x.rng.chance(1, 2) };
         let ms = x.rng.range(2, 3);
         if timed {
             x.timeout_used(Duration::from_millis(ms));
@@ -439,11 +448,22 @@ fn cv_impl(x: &mut Exec, with_cancel: bool) -> Res {
         let is_co = i != 0;
         modes.push((timed, ms, is_co));
         let is_target = with_cancel && i == 1;
+        let patient = !(timed || is_target);
+        let left = if patient { patient_left.clone() } else { impatient_left.clone() };
+        left.fetch_add(1, SeqCst);
+        if patient {
+            npatient += 1;
+        }
         let body = move |a: &Actor| {
+            // counted down also when the body is left by the cancel unwind
+            let _left = OnDrop(Some(move || {
+                left.fetch_sub(1, SeqCst);
+            }));
             let (m, c) = (&pair.0, &pair.1);
             a.call("lock", 0);
             let mut g = m.lock().unwrap();
             a.ret("lock", 0, 0);
+            let mut gave_up = false;
             while g.0 == 0 {
                 if timed {
                     let t0 = Instant::now();
@@ -453,6 +473,9 @@ fn cv_impl(x: &mut Exec, with_cancel: bool) -> Res {
                     a.ret("cv.wait_timeout", ms, r.timed_out() as u64);
                     if r.timed_out() && t0.elapsed() < Duration::from_millis(ms) {
                         errs.lock().unwrap().push(format!("wait_timeout({}ms) reported timed_out after {:?}", ms, t0.elapsed()));
+                    }
+                    if giveup && r.timed_out() {
+                        gave_up = true;
                     }
                 } else {
                     a.call("cv.wait", 0);
@@ -464,9 +487,16 @@ fn cv_impl(x: &mut Exec, with_cancel: bool) -> Res {
                 if prev != 0 {
                     errs.lock().unwrap().push(format!("mutex not exclusively owned after wait returned ({} others inside)", prev));
                 }
+                if gave_up {
+                    break;
+                }
             }
-            g.0 -= 1;
-            a.note("took", g.0 as u64, 0);
+            if !gave_up {
+                g.0 -= 1;
+                a.note("took", g.0 as u64, 0);
+            } else {
+                a.note("gave up", g.0 as u64, 0);
+            }
             drop(g);
             if is_target {
                 loop {
@@ -481,15 +511,17 @@ fn cv_impl(x: &mut Exec, with_cancel: bool) -> Res {
             x.spawn(&format!("c{}", i), is_co, body);
         }
     }
-    // tokens >= consumers: a lost notify_one strands a consumer
+    // normal mode: tokens >= consumers, a lost notify_one strands a consumer. give-up mode: tokens == patient consumers.
     let producers = 2usize;
-    let per = (consumers + 1) / 2;
+    let total = if giveup { npatient } else { 2 * ((consumers + 1) / 2) };
+    let prod_left = Arc::new(AtomicUsize::new(producers));
     for p in 0..producers {
-        let (pair, occ, errs) = (pair.clone(), occ.clone(), errs.clone());
+        let (pair, occ, errs, prod_left) = (pair.clone(), occ.clone(), errs.clone(), prod_left.clone());
         let mut r = x.rng.fork();
+        let per = total / 2 + if p == 0 { total % 2 } else { 0 };
         x.spawn(&format!("p{}", p), p == 0, move |a| {
             for i in 0..per {
-                nap(r.below(1200));
+                nap(r.below(if giveup { 3500 } else { 1200 }));
                 let mut g = pair.0.lock().unwrap();
                 let (prev, _o) = Occ::enter(&occ);
                 if prev != 0 {
@@ -507,13 +539,47 @@ fn cv_impl(x: &mut Exec, with_cancel: bool) -> Res {
                 drop(_o);
                 drop(g);
             }
+            prod_left.fetch_sub(1, SeqCst);
         });
     }
-    x.desc = format!("cv consumers(timed,ms,co)={:?} producers={}x{} notify_all={} cancel={}", modes, producers, per, use_all, with_cancel);
+    x.desc = format!("cv consumers(timed,ms,co)={:?} tokens={} notify_all={} cancel={} giveup={}", modes, total, use_all, with_cancel, giveup);
     if let Some(h) = &target {
         let at = x.rng.below(900);
         wait_fire(at);
         unsafe { h.coroutine().cancel() };
+    }
+    if giveup {
+        // settle: every token was taken, or nobody patient is left waiting. Quiescence before that = a patient consumer
+        // asleep beside a token whose notify_one was issued: the lost notification.
+        let (pl, il, pr, pair2) = (patient_left.clone(), impatient_left.clone(), prod_left.clone(), pair.clone());
+        let r = x.wait_cond(&move || {
+            // every impatient consumer has left (timed ones at their timeout, the target by its cancel)
+            if pr.load(SeqCst) != 0 || il.load(SeqCst) != 0 {
+                return false;
+            }
+            if pl.load(SeqCst) == 0 {
+                return true;
+            }
+            match pair2.0.try_lock() {
+                Ok(g) => g.0 == 0,
+                Err(_) => false,
+            }
+        });
+        if let Err(Fail::Stranded(msg)) = r {
+            let tokens = pair.0.try_lock().map(|g| g.0 as i64).unwrap_or(-1);
+            return Err(Fail::Stranded(format!(
+                "give-up mode: {} patient consumer(s) still asleep with {} token(s) available although every token came with its notify (a notification landed on a waiter that was giving up and was not passed on); {}",
+                patient_left.load(SeqCst),
+                tokens,
+                msg
+            )));
+        }
+        r?;
+        // release the patient consumers whose token an impatient one took
+        let mut g = pair.0.lock().unwrap();
+        g.0 += patient_left.load(SeqCst);
+        pair.1.notify_all();
+        drop(g);
     }
     x.wait_all()?;
     if let Some(h) = target {
@@ -532,6 +598,73 @@ fn cv_impl(x: &mut Exec, with_cancel: bool) -> Res {
         Err(_) => return viol("Condvar: mutex poisoned without a panic in a section"),
     };
     Ok(())
+}
+
+/// a notified waiter is re-locking the mutex (cancel ignored there) when its cancel arrives, exactly while the holder's
+/// unlock is handing the mutex over: the hand-over must not be lost
+fn relock(x: &mut Exec) -> Res {
+    let pair = Arc::new((Mutex::new(false), Condvar::new()));
+    let n_wait = x.rng.range(1, 2) as usize;
+    let mut targets = vec![];
+    for i in 0..n_wait {
+        let pair = pair.clone();
+        let (_, h) = x.spawn_co(&format!("waiter{}", i), move |a| {
+            let (m, c) = (&pair.0, &pair.1);
+            a.call("lock", 0);
+            let mut g = m.lock().unwrap();
+            a.ret("lock", 0, 0);
+            while !*g {
+                a.call("cv.wait", 0);
+                g = c.wait(g).unwrap();
+                a.ret("cv.wait", 0, 0);
+            }
+            drop(g);
+        });
+        targets.push(h);
+    }
+    let pair2 = pair.clone();
+    let hold_us = x.rng.below(400);
+    let mut r = x.rng.fork();
+    x.spawn("holder", false, move |a| {
+        let (m, c) = (&pair2.0, &pair2.1);
+        // give the waiters time to queue up on the condvar (they hold the mutex until they wait)
+        nap(300);
+        a.call("lock", 1);
+        let mut g = m.lock().unwrap();
+        a.ret("lock", 1, 0);
+        *g = true;
+        c.notify_all();
+        // the notified waiters now queue up on the mutex
+        nap(hold_us);
+        drop(g);
+        for round in 0..3 {
+            nap(r.below(200));
+            a.call("lock", 2 + round);
+            let g = m.lock().unwrap();
+            a.ret("lock", 2 + round, 0);
+            drop(g);
+        }
+    });
+    x.desc = format!("condvar re-lock under cancel: {} notified waiter(s) queue on the mutex for <= {}us, cancelled around the holder's unlock", n_wait, hold_us);
+    let at = 300 + x.rng.below(900);
+    wait_fire(at);
+    for h in &targets {
+        unsafe { h.coroutine().cancel() };
+    }
+    x.wait_all()?;
+    for h in targets {
+        match h.join() {
+            Ok(()) => {}
+            Err(e) if is_cancel_panic(&e) => {}
+            Err(_) => return viol("relock: a waiter ended with a non-Cancel panic"),
+        }
+    }
+    let res = match pair.0.try_lock() {
+        Ok(_) => Ok(()),
+        Err(TryLockError::WouldBlock) => viol("relock: mutex still held after all actors finished"),
+        Err(_) => viol("relock: mutex poisoned although only Cancel unwinds happened"),
+    };
+    res
 }
 
 // ------------------------------------------------------------------------------------ Barrier + WaitGroup
@@ -741,6 +874,164 @@ fn rw_impl(x: &mut Exec, with_cancel: bool) -> Res {
     }
     if let Err(TryLockError::WouldBlock) = l.try_write() {
         return viol(format!("RwLock: try_write is WouldBlock after all guards were dropped (poisoned={})", poisoned));
+    }
+    let r1 = l.try_read();
+    let r2 = l.try_read();
+    if matches!(r1, Err(TryLockError::WouldBlock)) || matches!(r2, Err(TryLockError::WouldBlock)) {
+        return viol("RwLock: two try_read on a free lock did not both succeed");
+    }
+    Ok(())
+}
+
+/// cancel a *reader* at any point of read()/guard/drop, then check that the lock still excludes.
+/// While the target lives it is the only reader (writers only besides it), so the reader-count mutex is never
+/// contended and the known finding D13 (a guard dropped by a Cancel unwind has to block) cannot interfere;
+/// the other readers start only after the target is gone.
+fn rwcr(x: &mut Exec) -> Res {
+    let l = Arc::new(RwLock::new(0u64));
+    let poisoned = x.rng.chance(1, 4);
+    if poisoned {
+        poison_rw(&l);
+    }
+    let rd = Arc::new(AtomicIsize::new(0));
+    let wr = Arc::new(AtomicIsize::new(0));
+    let errs = Arc::new(std::sync::Mutex::new(Vec::<String>::new()));
+    let phase2 = Arc::new(AtomicBool::new(false));
+    let stop = Arc::new(AtomicBool::new(false));
+    let nw = x.rng.range(1, 2) as usize;
+    let hold_us = x.rng.below(400);
+    // writers: hold the lock for a while again and again until told to stop
+    for i in 0..nw {
+        let (l, rd, wr, errs, stop) = (l.clone(), rd.clone(), wr.clone(), errs.clone(), stop.clone());
+        let mut r = x.rng.fork();
+        x.spawn(&format!("w{}", i), r.chance(1, 2), move |a| {
+            let mut it = 0;
+            while !stop.load(SeqCst) && it < 400 {
+                a.call("write", it);
+                let mut g = l.write().unwrap_or_else(|e| e.into_inner());
+                a.ret("write", it, 1);
+                let w = wr.fetch_add(1, SeqCst);
+                let rr = rd.load(SeqCst);
+                if w != 0 || rr != 0 {
+                    errs.lock().unwrap().push(format!("writer entered with {} writer(s) and {} reader(s) inside", w, rr));
+                }
+                nap(r.below(hold_us + 1));
+                let rr = rd.load(SeqCst);
+                if rr != 0 {
+                    errs.lock().unwrap().push(format!("{} reader(s) entered while a write guard was alive", rr));
+                }
+                *g += 1;
+                wr.fetch_sub(1, SeqCst);
+                drop(g);
+                it += 1;
+                nap(r.below(60));
+            }
+        });
+    }
+    // in half of the instances other readers are active beside the target: the target itself never blocks while it
+    // holds a guard (so no Cancel unwind ever drops one, D13 stays out), but its read_unlock may have to wait for
+    // the reader-count mutex at the moment of the cancel
+    let early_readers = if x.rng.chance(1, 2) { x.rng.range(1, 2) as usize } else { 0 };
+    for i in 0..early_readers {
+        let (l, rd, wr, errs, stop) = (l.clone(), rd.clone(), wr.clone(), errs.clone(), stop.clone());
+        let mut r = x.rng.fork();
+        x.spawn(&format!("er{}", i), r.chance(1, 2), move |a| {
+            let mut it = 0;
+            while !stop.load(SeqCst) && it < 600 {
+                a.call("read", it);
+                let g = l.read().unwrap_or_else(|e| e.into_inner());
+                a.ret("read", it, 1);
+                rd.fetch_add(1, SeqCst);
+                let w = wr.load(SeqCst);
+                if w != 0 {
+                    errs.lock().unwrap().push(format!("reader inside together with {} writer(s)", w));
+                }
+                let _v = *g;
+                rd.fetch_sub(1, SeqCst);
+                drop(g);
+                it += 1;
+                if r.chance(1, 4) {
+                    nap(r.below(40));
+                }
+            }
+        });
+    }
+    // the target: the only reader of phase 1 unless `early_readers`
+    let (tl, trd, twr, terrs) = (l.clone(), rd.clone(), wr.clone(), errs.clone());
+    let mut tr = x.rng.fork();
+    let (_, target) = x.spawn_co("target-reader", move |a| {
+        for it in 0..200 {
+            a.call("read", it);
+            let g = tl.read().unwrap_or_else(|e| e.into_inner());
+            a.ret("read", it, 1);
+            trd.fetch_add(1, SeqCst);
+            let w = twr.load(SeqCst);
+            if w != 0 {
+                terrs.lock().unwrap().push(format!("reader inside together with {} writer(s)", w));
+            }
+            let _v = *g;
+            trd.fetch_sub(1, SeqCst);
+            drop(g);
+            if tr.chance(1, 3) {
+                may::coroutine::yield_now();
+            }
+        }
+    });
+    x.desc = format!("rwlock: cancel a reader that never blocks under its guard ({} writer(s) holding <= {}us, {} other early readers), then 2 readers + writers; poisoned={}", nw, hold_us, early_readers, poisoned);
+    let at = x.rng.below(600);
+    wait_fire(at);
+    unsafe { target.coroutine().cancel() };
+    {
+        let t = &target;
+        x.wait_cond(&|| t.is_done())?;
+    }
+    x.co_handles.push(target);
+    // phase 2: readers that must still be excluded by the writers
+    phase2.store(true, SeqCst);
+    let mut readers_done = vec![];
+    for i in 0..2 {
+        let (l, rd, wr, errs) = (l.clone(), rd.clone(), wr.clone(), errs.clone());
+        let mut r = x.rng.fork();
+        let done = Arc::new(AtomicBool::new(false));
+        readers_done.push(done.clone());
+        x.spawn(&format!("r{}", i), i == 0, move |a| {
+            for it in 0..6 {
+                let tr = r.chance(1, 3);
+                a.call(if tr { "try_read" } else { "read" }, it);
+                let g = if tr {
+                    match l.try_read() {
+                        Ok(g) => Some(g),
+                        Err(TryLockError::Poisoned(e)) => Some(e.into_inner()),
+                        Err(TryLockError::WouldBlock) => None,
+                    }
+                } else {
+                    Some(l.read().unwrap_or_else(|e| e.into_inner()))
+                };
+                a.ret(if tr { "try_read" } else { "read" }, it, g.is_some() as u64);
+                if let Some(g) = g {
+                    rd.fetch_add(1, SeqCst);
+                    let w = wr.load(SeqCst);
+                    if w != 0 {
+                        errs.lock().unwrap().push(format!("after a reader was cancelled: reader inside together with {} writer(s)", w));
+                    }
+                    nap(r.below(80));
+                    let _v = *g;
+                    rd.fetch_sub(1, SeqCst);
+                    drop(g);
+                }
+                nap(r.below(80));
+            }
+            done.store(true, SeqCst);
+        });
+    }
+    x.wait_cond(&|| readers_done.iter().all(|d| d.load(SeqCst)))?;
+    stop.store(true, SeqCst);
+    x.wait_all()?;
+    if let Some(e) = errs.lock().unwrap().first() {
+        return viol(format!("RwLock: {} (poisoned={})", e, poisoned));
+    }
+    if let Err(TryLockError::WouldBlock) = l.try_write() {
+        return viol(format!("RwLock: try_write is WouldBlock after all guards were dropped and a reader had been cancelled (poisoned={})", poisoned));
     }
     let r1 = l.try_read();
     let r2 = l.try_read();
